@@ -357,6 +357,32 @@ def run(chk, repo, tier):
                     'sum)' % f.name,
                found='; '.join(describe(m) for m in muts))
 
+    # the estimate hands the *same* T object to every constituent: no
+    # evaluator of a constituent correlation may change its argument
+    n_eval = 0
+    for rel in ('pgradd/ThermoChem/raw_data.py',
+                'pgradd/ThermoChem/incomplete.py',
+                'pgradd/ThermoChem/base.py', GD):
+        for c in repo.mod(rel).tree.body:
+            if not isinstance(c, ast.ClassDef):
+                continue
+            for f in c.body:
+                if isinstance(f, ast.FunctionDef) and (
+                        f.name.startswith('get_')
+                        or f.name.startswith('_get_')
+                        or f.name == 'check_range'):
+                    n_eval += 1
+                    ps_ = set('param:' + a for a in params(f)[1:])
+                    muts = [m for m in FuncEffects(f).persistent_mutations()
+                            if m[3] & ps_]
+                    chk.ob('R01.8', not muts, rel, f,
+                           key='argument-unchanged:%s.%s' % (c.name, f.name),
+                           what='%s.%s does not change the objects it is '
+                                'given (the temperature array is shared by '
+                                'all terms of the sum)' % (c.name, f.name),
+                           found='; '.join(describe(m) for m in muts))
+    chk.need('R01.8', n_eval, 20, 'evaluator methods of the correlations')
+
     # ---- R01.9 what the membership test relies on --------------------------
     from .. import reviewed
     reviewed.check(chk, 'R01.9', repo, 'pgradd/yaml_io/schema.py',
